@@ -47,6 +47,8 @@ class SyncEngine(BaseEngine):
         """
         if not self._rtc:
             # The machine is in "synchronous" mode
+            if not self._external_queue:
+                return None
             trigger_data = self._external_queue.popleft()
             return self._trigger(trigger_data)
 
